@@ -95,6 +95,7 @@ type State struct {
 	reachSeen map[string]bool
 	pinned    map[int]uint64
 	btrace    []string
+	axiomIDs  map[int]bool // pc entries that are hash-model axioms (not evaluated when validating a lifted stream)
 }
 
 func (s *State) clone(newID int) *State {
@@ -146,6 +147,12 @@ func (s *State) clone(newID int) *State {
 	}
 	if s.btrace != nil {
 		c.btrace = append([]string(nil), s.btrace...)
+	}
+	if s.axiomIDs != nil {
+		c.axiomIDs = make(map[int]bool, len(s.axiomIDs))
+		for k, v := range s.axiomIDs {
+			c.axiomIDs[k] = v
+		}
 	}
 	c.reachSeen = make(map[string]bool, len(s.reachSeen))
 	for k, v := range s.reachSeen {
